@@ -77,6 +77,10 @@ func c15sReps() []c15sRep {
 			reps = append(reps, c15sRep{p.name, f.class, []string{f.text}})
 		}
 		reps = append(reps, c15sRep{p.name, "second-statement-of-request", []string{"SELECT 1", eq}})
+		// the canonical text carried by a parameterised statement: the JSON API attaches any surplus values to
+		// the statement and SQLite ignores values beyond the placeholder count, so the text runs as written
+		reps = append(reps, c15sRep{p.name, "surplus-parameter", []string{eq + c15sParamMark}})
+		reps = append(reps, c15sRep{p.name, "surplus-parameter", []string{"SELECT 1", eq + c15sParamMark}})
 		reps = append(reps, c15sRep{p.name, "call-syntax", []string{"SELECT 1", "pragma " + p.name + "(" + p.value + ")"}})
 	}
 	// harmless controls and plain reads of the guarded settings
@@ -87,6 +91,19 @@ func c15sReps() []c15sRep {
 		reps = append(reps, c15sRep{"", "control", []string{t}})
 	}
 	return reps
+}
+
+// c15sParamMark, appended to a statement text by c15sReps, makes send() strip it and attach one
+// surplus positional parameter to that statement.
+const c15sParamMark = "\x00+param"
+
+func c15sAttachParams(stmts []*proto.Statement) {
+	for _, st := range stmts {
+		if strings.HasSuffix(st.Sql, c15sParamMark) {
+			st.Sql = strings.TrimSuffix(st.Sql, c15sParamMark)
+			st.Parameters = append(st.Parameters, &proto.Parameter{Value: &proto.Parameter_I{I: 1}})
+		}
+	}
 }
 
 const (
@@ -245,7 +262,9 @@ func (n *c15sNode) send(path int, stmts []string) (rejected bool, errText string
 	switch path {
 	case c15sExecute:
 		var res []*proto.ExecuteQueryResponse
-		res, _, err = n.s.Execute(ctx, executeRequestFromStrings(stmts, false, false))
+		er := executeRequestFromStrings(stmts, false, false)
+		c15sAttachParams(er.Request.Statements)
+		res, _, err = n.s.Execute(ctx, er)
 		for _, r := range res {
 			if e := r.GetError(); e != "" {
 				inner = append(inner, e)
@@ -253,6 +272,7 @@ func (n *c15sNode) send(path int, stmts []string) (rejected bool, errText string
 		}
 	case c15sQueryNone, c15sQueryStrong:
 		qr := queryRequestFromStrings(stmts, false, false, false)
+		c15sAttachParams(qr.Request.Statements)
 		qr.Level = proto.ConsistencyLevel_NONE
 		if path == c15sQueryStrong {
 			qr.Level = proto.ConsistencyLevel_STRONG
@@ -270,7 +290,9 @@ func (n *c15sNode) send(path int, stmts []string) (rejected bool, errText string
 			lvl = proto.ConsistencyLevel_STRONG
 		}
 		var res []*proto.ExecuteQueryResponse
-		res, _, _, err = n.s.Request(ctx, executeQueryRequestFromStrings(stmts, lvl, false, false, false))
+		eqr := executeQueryRequestFromStrings(stmts, lvl, false, false, false)
+		c15sAttachParams(eqr.Request.Statements)
+		res, _, _, err = n.s.Request(ctx, eqr)
 		for _, r := range res {
 			if e := r.GetError(); e != "" {
 				inner = append(inner, e)
